@@ -147,7 +147,7 @@ class DictProxy(dict):
 
         return (validated_key, validated_value)
 
-    def setdefault(self, key: Any, value: Any) -> Any:  # type: ignore[override]
+    def setdefault(self, key: Any, value: Any = None) -> Any:  # type: ignore[override]
         key, value = self._validate(key, value)
         return super().setdefault(key, value)
 
